@@ -2,6 +2,7 @@ package storevc
 
 import (
 	"fmt"
+	"os"
 	"strings"
 
 	"github.com/youzan/ZanRedisDB/common"
@@ -22,7 +23,8 @@ func Families() []Family {
 		{"kv", [][]string{{"set", "t:k", "1"}, {"append", "t:k", "x"}, {"setrange", "t:k", "2", "yy"}, {"incr", "t:k"}, {"setnx", "t:j", "n"}, {"getset", "t:k", "7"}, {"mset", "t:k", "a", "t:j", "b"}, {"del", "t:k", "t:j"}},
 			[][]string{{"get", "t:k"}, {"get", "t:j"}, {"ttl", "t:k"}}},
 		// the commands that share one write batch (set, setex, del, hmset), colliding on the first and on a later key
-		{"batchable", [][]string{{"set", "t:k", "1"}, {"set", "t:j", "2"}, {"set", "t:j", "3", "nx"}, {"setex", "t:j", "100", "v"}, {"del", "t:j"}, {"del", "t:k", "t:j"}, {"del", "t:j", "t:k"}, {"hmset", "t:j", "a", "1"}},
+		// ... and one that passes the leader's validation but fails in apply (the batch is aborted in the middle)
+		{"batchable", [][]string{{"set", "t:k", "1"}, {"set", "t:j", "2"}, {"set", "t:j", "3", "nx"}, {"setex", "t:j", "100", "v"}, {"del", "t:j"}, {"del", "t:k", "t:j"}, {"del", "t:j", "t:k"}, {"hmset", "t:j", "a", "1"}, {"setex", "t:k", "notanumber", "v"}},
 			[][]string{{"get", "t:k"}, {"get", "t:j"}, {"hgetall", "t:j"}}},
 		{"hash", [][]string{{"hset", "t:h", "a", "1"}, {"hmset", "t:h", "a", "x", "b", "2"}, {"hdel", "t:h", "a"}, {"hincrby", "t:h", "b", "3"}, {"hclear", "t:h"}, {"hsetnx", "t:h", "c", "1"}},
 			[][]string{{"hgetall", "t:h"}, {"hlen", "t:h"}}},
@@ -38,6 +40,14 @@ func Families() []Family {
 			[][]string{{"pfcount", "t:p"}}},
 		{"json", [][]string{{"json.set", "t:j", ".", `{"a":[1],"b":"x"}`}, {"json.arrappend", "t:j", "a", "2", "3"}, {"json.arrpop", "t:j", "a"}, {"json.set", "t:j", "b", `"y"`}, {"json.del", "t:j", "b"}},
 			[][]string{{"json.get", "t:j"}, {"json.arrlen", "t:j", "a"}}},
+		// a set with a time to live: SPOP picks its members while the replica's wall clock may be on the other side of the expiry
+		// a command that fails in apply between two batched ones (three entries: explored one entry deeper);
+		// the replies of the neighbours differ from each other so that a shifted reply is visible
+		{"batch-abort", [][]string{{"del", "t:k"}, {"set", "t:j", "3", "nx"}, {"setex", "t:k", "notanumber", "v"}, {"set", "t:k", "1"}},
+			[][]string{{"get", "t:k"}, {"get", "t:j"}}},
+		// (a small pool explored one entry deeper than the others: create, expire, pop needs three entries)
+		{"ttl-set", [][]string{{"sadd", "t:s", "a", "b", "c"}, {"sexpire", "t:s", "1"}, {"spop", "t:s"}, {"spersist", "t:s"}},
+			[][]string{{"smembers", "t:s"}, {"scard", "t:s"}, {"sttl", "t:s"}}},
 		{"ttl", [][]string{{"setex", "t:k", "1", "v"}, {"set", "t:k", "w"}, {"expire", "t:k", "1"}, {"persist", "t:k"}, {"append", "t:k", "x"}, {"incr", "t:k"}, {"hset", "t:h", "a", "1"}, {"hexpire", "t:h", "1"}, {"hincrby", "t:h", "a", "1"}},
 			[][]string{{"get", "t:k"}, {"ttl", "t:k"}, {"hgetall", "t:h"}, {"httl", "t:h"}}},
 	}
@@ -134,7 +144,14 @@ func RunDeterminism(col *ev.Collector, engines []string, polName string, pol com
 		col.Add(ev.Violation{Property: "C07", Signature: "C07|" + sig, What: polName + ": " + what, Replay: replay})
 	}
 	for _, fam := range Families() {
-		for _, log := range logsOf(fam.Pool, maxLen) {
+		if only := os.Getenv("VERIF_C07_FAMILY"); only != "" && only != fam.Name {
+			continue // debugging aid, never set by a registered command
+		}
+		famLen := maxLen
+		if fam.Name == "ttl-set" || fam.Name == "batch-abort" {
+			famLen = maxLen + 1
+		}
+		for _, log := range logsOf(fam.Pool, famLen) {
 			if dl.Hit() {
 				return st, false
 			}
